@@ -449,7 +449,7 @@ class bistr(str):
 
             return idx
 
-        c2b = self._c2b = self._make_array(lc, lb)
+        c2b = self._make_array(lc, lb)  # filled completely BEFORE it is stored: line objects are shared between trees (copies) and so between threads, a stored table must never be seen partly filled
         j = 0
 
         for i, c in enumerate(self):
@@ -457,6 +457,7 @@ class bistr(str):
             j += len(c.encode())
 
         c2b[-1] = j
+        self._c2b = c2b
         self.c2b = self._c2b_lookup
 
         return c2b[idx]
@@ -471,7 +472,7 @@ class bistr(str):
         if (lb := self.c2b(lc := len(self))) == lc:
             return idx  # no chars > '\x7f' so funcs are `_i2i_same` identity
 
-        b2c = self._b2c = self._make_array(lb, lc)
+        b2c = self._make_array(lb, lc)  # same as in c2b(): stored only once complete
 
         for i, j in enumerate(self._c2b):
             b2c[j] = i
@@ -484,6 +485,7 @@ class bistr(str):
             else:
                 b2c[i] = k
 
+        self._b2c = b2c
         self.b2c = self._b2c_lookup
 
         return b2c[idx]
